@@ -488,6 +488,69 @@ def make_long_irrigation(ex):
     open(cfg, "w").write(t)
 
 
+# ---- texture / fraction errors by POSITION in the profile (C11): first / middle / last horizon of three, last of two, single
+# horizon; the fraction classes under PTF=1..4 (command-line override), the texture-code class under PTF=0
+_H3 = ["%s 0.90 SL2 03 3 00 10      00 13 03   22 09 38 %s 00  20   00 99 01",
+       "%s 0.50 SL3 10 3 00 10      00         22 10 40 %s 00  20   00       ",
+       "%s 0.30 SL4 20 3 00 10      00         22 12 43 %s 00  20   00       "]
+_H2 = ["%s 0.90 SL2 03 3 00 10      00 13 02   22 09 38 %s 00  20   00 99 01",
+       "%s 0.30 SL4 20 3 00 10      00         22 12 43 %s 00  20   00       "]
+_H1 = ["%s 1.14 SL2 03 2 00 10      00 03 01   31 16 45 %s 00  20   00 99 01"]
+_GOODF = ["73 21 06", "70 22 08", "61 27 12"]
+_FRL = "project=vfr WeatherFolder=historical fcode=109_120 Altitude=73 Latitude=52.6732 poligonID=29872 EndDate=12311981 plotNr=10001 soilId=%s PTF=%d"
+# name -> (soil id, horizons template, index of the bad horizon, bad fraction triple or texture code, PTF)
+FRACTION_SPECS = {
+    "fractions-sum:first-of-3@ptf1":   ("701", _H3, 0, "73 41 06", 1),
+    "fractions-sum:middle-of-3@ptf2":  ("702", _H3, 1, "70 42 08", 2),
+    "fractions-sum:last-of-3@ptf1":    ("703", _H3, 2, "61 47 12", 1),
+    "fractions-sum:last-of-3@ptf2":    ("703", _H3, 2, "61 47 12", 2),
+    "fractions-sum:last-of-3@ptf3":    ("703", _H3, 2, "61 47 12", 3),
+    "fractions-sum:last-of-3@ptf4":    ("703", _H3, 2, "61 47 12", 4),
+    "fractions-sum:last-of-2@ptf3":    ("704", _H2, 1, "31 27 12", 3),
+    "fractions-sum:single@ptf4":       ("705", _H1, 0, "26 93 11", 4),
+    "fractions-zero-clay:last-of-3@ptf1": ("706", _H3, 2, "70 30 00", 1),
+    "fractions-zero-silt:last-of-2@ptf2": ("707", _H2, 1, "88 00 12", 2),
+    "fractions-zero-sand:single@ptf1": ("708", _H1, 0, "00 89 11", 1),
+    "fractions-zero-clay:first-of-3@ptf4": ("709", _H3, 0, "79 21 00", 4),
+    "texture-code:middle-of-3@ptf0":   ("711", _H3, 1, "QQ9", 0),
+    "texture-code:last-of-3@ptf0":     ("712", _H3, 2, "QQ9", 0),
+    "texture-code:last-of-3@ptf2":     ("712", _H3, 2, "QQ9", 2),
+}
+FRACTIONS = {k: _FRL % (v[0], v[4]) for k, v in FRACTION_SPECS.items()}
+# the same profiles where nothing looks at the broken part: valid lines
+FRACTIONS_VALID = {"tx-fractions-ignored-ptf0": _FRL % ("703", 0), "tx-3-horizons-ptf1": _FRL % ("700", 1)}
+
+
+def make_fraction_inputs(ex):
+    d = _clone(ex, "ex1", "vfr")
+    done = set()
+    with open(os.path.join(d, "soil_vfr.txt"), "a") as f:
+        for i, tpl in enumerate(_H3):
+            f.write((tpl % ("700", _GOODF[i])) + "\n")
+        for name, (sid, tpls, bad, val, ptf) in FRACTION_SPECS.items():
+            if sid in done:
+                continue
+            done.add(sid)
+            for i, tpl in enumerate(tpls):
+                good = _GOODF[i] if len(tpls) > 1 else "26 63 11"
+                line = tpl % (sid, val if (i == bad and " " in val) else good)
+                if i == bad and " " not in val:
+                    line = line[:9] + val + line[12:]
+                f.write(line + "\n")
+
+
+# ---- several interacting command-line overrides on ONE batch line (C03): the override code must give the same configuration
+# every time, whatever order it meets the keys in (Go map iteration is random)
+OVERRIDES = {
+    "ov_zuc_sow0_harv1": VALID["zuc1"] + " AutoSowingHarvest=0 AutoHarvest=1",
+    "ov_rue_sow0_harv1": VALID["rue1"] + " AutoSowingHarvest=0 AutoHarvest=1 AutoIrrigation=0",
+    "ov_zuc_sow1_harv0": VALID["zuc1"] + " AutoSowingHarvest=1 AutoHarvest=0 AutoFertilization=0",
+    "ov_bulk_mix":       VALID["bulk"] + " AutoIrrigation=0 AutoFertilization=1 PTF=2 ETpot=1 AutoSowingHarvest=1 AutoHarvest=0",
+    "ov_ex3_gw":         VALID["ex3a"] + " GroundWaterFrom=2 gwId=075 CO2method=1 AutoIrrigation=0 AutoHarvest=0 AutoSowingHarvest=1",
+    "ov_ex1_soil":       VALID["ex1a"] + " PTF=1 ETpot=2 CO2method=1 KcFactorBareSoil=0.8 LeachingDepth=9 AutoIrrigation=0",
+}
+
+
 class Exec:
     """one execution of the batch binary"""
     def __init__(self):
